@@ -368,6 +368,8 @@ def make_ugrid(rng, *, mesh=None, winding=None, supplied=None, start_index=None,
         # a fill value must lie outside the index range (otherwise the file itself is invalid)
         if t['fill_value'] >= 0:
             t['fill_value'] = 999999 if t['dtype'] != 'int16' else 9999
+        if str(t['start_index']) == '1' and chance(rng, 0.3):
+            t['fill_value'] = 0          # the natural "no element" number of a one-based table
         tables[key] = t
     # UGRID: a transposed connectivity variable is only legal when the matching *_dimension attribute is declared
     if any(tables[k]['transposed'] for k in ('edge_node', 'edge_face') if k in supplied):
